@@ -33,6 +33,7 @@ def dispatch (line : String) : String :=
   | "recvpause" :: rest => (handleRecvPause rest).getD "BAD-CASE\t0"
   | "recv" :: rest => (handleRecv rest).getD "BAD-CASE\t0"
   | "gen" :: rest => (handleGen rest).getD "BAD-CASE\t0"
+  | "e2erefuse" :: rest => (handleE2ERefuse rest).getD "BAD-CASE\t0"
   | "netparse" :: rest => (handleNetParse rest).getD "BAD-CASE\t0"
   | "proc" :: rest => (handleProc rest).getD "BAD-CASE\t0"
   | "e2efill" :: rest => (handleE2EFill rest).getD "BAD-CASE\t0"
@@ -56,6 +57,7 @@ def dispatch (line : String) : String :=
   | "pexclfile" :: rest => (handlePExclFile rest).getD "BAD-CASE\t0"
   | "jres" :: rest => (handleJRes rest).getD "BAD-CASE\t0"
   | "juniqbig" :: rest => (handleJUniqBig rest).getD "BAD-CASE\t0"
+  | "juniqstall" :: rest => (handleJUniqBig rest).getD "BAD-CASE\t0"
   | "jlog" :: rest => (handleJLog rest).getD "BAD-CASE\t0"
   | "arpnil" :: rest => (handleArpNil rest).getD "BAD-CASE\t0"
   | "arpc" :: rest => (handleArpC rest).getD "BAD-CASE\t0"
@@ -66,6 +68,7 @@ def dispatch (line : String) : String :=
   | "limwrap" :: rest => (handleLimWrap rest).getD "BAD-CASE\t0"
   | "limwire" :: rest => (Driver.E2E.handleLimWire rest).getD "BAD-CASE\t0"
   | "e2earp" :: rest => (Driver.E2E.handleE2EArp rest).getD "BAD-CASE\t0"
+  | "e2earpkill" :: rest => (Driver.E2E.handleE2EArpKill rest).getD "BAD-CASE\t0"
   | "e2esigint" :: rest => (Driver.E2E.handleE2ESigint rest).getD "BAD-CASE\t0"
   | "e2ejson" :: rest => (handleE2EJson rest).getD "BAD-CASE\t0"
   | "e2edelay" :: rest => (Driver.E2E.handleE2EDelay rest).getD "BAD-CASE\t0"
